@@ -281,7 +281,16 @@ def delegation(ctx, R):
                     has = any(y.kind == 'call' and (y.name.rsplit('::', 1)[-1] in accept or y.name.endswith('with_gil') or
                                                     y.name.endswith('allow_threads')) for y in a.walk())
                     if not has and a.kind != 'unknown':
-                        bad.append(a)
+                        # a value built on a path that has already examined the delegate's result (`None` arm of
+                        # `match self.0.m() { Some(x) => .., None => None }`, or the desugared `.map(..)`) is still a
+                        # projection of the delegate
+                        site_bb = a.site[0] if a.site else None
+                        examined = site_bb is not None and any(
+                            k.kind == 'discr' and k.expr is not None and any(
+                                y.kind == 'call' and y.name.rsplit('::', 1)[-1] in accept for y in k.expr.walk())
+                            for k in path_conditions(ub, site_bb))
+                        if not examined:
+                            bad.append(a)
                 if len(bad) == len([a for a in alts if a.kind != 'unknown']):
                     bad = []        # the result is not the delegate's value at all (e.g. a handle created alongside)
                 n += 1
